@@ -256,7 +256,7 @@ def evaluate(prop, hyp, case, model_out=None):
     if hasattr(prop, "post_model"):
         # the model's answer may name *what* to observe (e.g. the surviving operations of a history);
         # the property turns it into an observation comparable with the implementation's
-        mouts = prop.post_model(hyp, case, mouts)
+        mouts = prop.post_model(hyp, case, mouts, iouts)
     if len(iouts) != len(mouts):
         raise Infra("impl produced %d outputs for %d commands" % (len(iouts), len(mouts)))
     eq = getattr(prop, "same", lambda a, b: a == b)
